@@ -200,6 +200,9 @@ def main():
     t_start = time.time()
     work = P.scratch_dir(prop + '_' + tier)
     evid_path = os.path.join(P.VERIF, 'evidence', prop + '.json')
+    if a.only:
+        # a debugging run of a part of the check must not overwrite the evidence of the registered command
+        evid_path = os.path.join(P.VERIF, 'evidence', '.partial', prop + '.json')
     os.makedirs(os.path.dirname(evid_path), exist_ok=True)
     rc = 2
     try:
